@@ -63,8 +63,26 @@ impl<T> Binders<T> {
     { unimplemented!() }
 }
 
+//@TYPE file=chalk-solve/src/rust_ir.rs kind=enum name=WellKnownTrait
+pub uninterp spec fn ty_kind<I: Interner>(t: Ty<I>) -> TyKind<I>;
+pub uninterp spec fn spec_from1<I: Interner>(t: Ty<I>) -> Substitution<I>;
+impl<I: Interner> Ty<I> {
+    #[verifier::external_body]
+    pub fn kind(&self, interner: I) -> (r: &TyKind<I>) ensures *r == ty_kind(*self) { unimplemented!() }
+}
+impl<I: Interner> Substitution<I> {
+    #[verifier::external_body]
+    pub fn from1(interner: I, arg: Ty<I>) -> (r: Self) ensures r == spec_from1(arg) { unimplemented!() }
+}
+impl<I: Interner> Copy for TraitId<I> {}
+impl<I: Interner> Clone for TraitId<I> { #[verifier::external_body] fn clone(&self) -> (r: Self) ensures r == *self { unimplemented!() } }
+
 pub trait RustIrDatabase<I: Interner> {
     fn interner(&self) -> I;
+    spec fn spec_well_known(&self, t: WellKnownTrait) -> Option<TraitId<I>>;
+    /// (the lang item is declared whenever a goal for it exists: the code unwraps)
+    fn well_known_trait_id(&self, well_known_trait: WellKnownTrait) -> (r: Option<TraitId<I>>)
+        ensures r == self.spec_well_known(well_known_trait), r is Some;
     spec fn spec_closure_fn_substitution(&self, id: ClosureId<I>, s: Substitution<I>) -> Substitution<I>;
     spec fn spec_closure_upvars(&self, id: ClosureId<I>, s: Substitution<I>) -> Binders<Ty<I>>;
     fn closure_fn_substitution(&self, closure_id: ClosureId<I>, substs: &Substitution<I>) -> (r: Substitution<I>)
@@ -185,6 +203,8 @@ pub open spec fn copy_rule<I: Interner>(ty: TyKind<I>, binders: CanonicalVarKind
 }
 
 // ------------------------------------------------------------- real functions
+//@FN file=chalk-solve/src/clauses/builtin_traits/clone.rs fn=add_clone_program_clauses contract=add_copy path=builtin_traits::clone::add_clone_program_clauses
+//@FN file=chalk-solve/src/clauses/builtin_traits/tuple.rs fn=add_tuple_program_clauses contract=add_tuple path=builtin_traits::tuple::add_tuple_program_clauses
 //@FN file=chalk-solve/src/clauses/builtin_traits/copy.rs fn=add_copy_program_clauses contract=add_copy path=builtin_traits::copy::add_copy_program_clauses
 //@FN file=chalk-solve/src/clauses/builtin_traits/sized.rs fn=add_sized_program_clauses contract=add_sized path=builtin_traits::sized::add_sized_program_clauses
 
@@ -202,6 +222,18 @@ pub open spec fn copy_rule<I: Interner>(ty: TyKind<I>, binders: CanonicalVarKind
         },
 //@END
 
+//@CONTRACT add_tuple
+    ensures
+        match ty_kind(self_ty) {
+            // every tuple type implements `Tuple`, unconditionally
+            TyKind::Tuple(..) => r is Ok && final(builder).log() == old(builder).log().push(
+                Pushed::Fact(TraitRef { trait_id: db.spec_well_known(WellKnownTrait::Tuple)->Some_0, substitution: spec_from1(self_ty) })),
+            // cannot enumerate: unknown / not yet normalized self type
+            TyKind::InferenceVar(..) | TyKind::BoundVar(_) | TyKind::Alias(..) => r is Err && final(builder).log() == old(builder).log(),
+            // nothing else is a tuple
+            _ => r is Ok && final(builder).log() == old(builder).log(),
+        },
+//@END
 //@CONTRACT add_copy
     ensures
         match copy_rule(ty, *binders) {
